@@ -274,8 +274,39 @@ def rule_from_bban(m, report, name):
         r.instance({"constructor calls": 0})
         r.finding("IBAN.from_bban:constructor", "from_bban never reaches the IBAN constructor", f.where)
         return
-    for args, kwargs in captured[:1]:
+    # the same for every country code of the table as a concrete text (a per-country shortcut - digits taken from the table, a special case
+    # for one country - is keyed on the country code and invisible to the symbolic code): the digits must be the computed ones there too
+    n_sym = len(captured)
+    table = m.facts.iban_table() if hasattr(m.facts, "iban_table") else {}
+    special = {}
+    for c2 in sorted(table):
+        before = len(captured)
+        try:
+            it.explore(lambda: it.call(it.getattr(ClsRef(iban), "from_bban"), [c2, bban], {}), max_paths=200)
+        except Exception as e:
+            raise AnalysisError(f"cannot evaluate IBAN.from_bban for {c2}: {e}")
+        for args, kwargs in captured[before:]:
+            text = args[0] if args else None
+            parts = list(text.args[0]) if isinstance(text, Sym) and text.kind == "concat" else None
+            # adjacent constant pieces may have been folded: country code + constant digits
+            ok = parts is not None and len(parts) == 3 and parts[0] == c2 and parts[2] == bban and isinstance(parts[1], Sym)
+            if ok:
+                arg = numerify_arg(parts[1])
+                ok = isinstance(arg, SStr) and eval_sym(parts[1], 12345) == f"{98 - (12345 * 100) % 97:02d}"
+            if not ok:
+                special.setdefault(repr(text)[:160], []).append(c2)
+    del captured[n_sym:]
+    r.instance({"countries evaluated with a concrete country code": len(table), "with an assembly other than country + computed digits + BBAN": sum(len(v) for v in special.values())})
+    for shown, ccs in sorted(special.items()):
+        r.finding(f"IBAN.from_bban:special-case[{ccs[0]}]", f"for the country code {ccs[0]!r} from_bban assembles {shown}: not country code + check digits computed over BBAN + country code + BBAN "
+                  f"({len(ccs)} countr{'y' if len(ccs) == 1 else 'ies'}: {', '.join(ccs[:10])}); a BBAN whose own digits differ gets check digits the validator rejects, or an invalid IBAN",
+                  f.where, witness={"country": ccs[0]})
+    seen_texts = set()
+    for args, kwargs in captured:
         text = args[0] if args else None
+        if (repr(text), repr(kwargs.get("allow_invalid", False))) in seen_texts:
+            continue     # every path that reaches the constructor is examined once per distinct assembled text
+        seen_texts.add((repr(text), repr(kwargs.get("allow_invalid", False))))
         parts = None
         if isinstance(text, Sym) and text.kind == "concat":
             parts = list(text.args[0])
